@@ -1520,3 +1520,64 @@ for _p, _r in (('C10', 'R10.5'), ('C07', 'R07.5'), ('C11', 'R11.8')):
             "        parts = item.split('-')\n        if len(parts) > 1:\n            drm = parts[0]\n")],
           None),
     ]
+
+UTCOPT = 'dashlive/server/options/utc_time_options.py'
+VARIANTS['C16'] += [
+    V('time method validated after stripping blanks, returned as typed',
+      [(UTCOPT, "    if method is not None and method not in UTC_METHODS:\n", "    if method is not None and method.strip() not in UTC_METHODS:\n")],
+      'R16.17', '_utc_method_from_string'),
+    V('neutral: time method normalised first, then validated and returned in that form',
+      [(UTCOPT, "    if method is not None and method not in UTC_METHODS:\n",
+        "    if method is not None:\n        method = method.lower()\n    if method is not None and method not in UTC_METHODS:\n")],
+      None),
+    V('neutral: time method validated in lower case and returned in lower case',
+      [(UTCOPT, "    if method is not None and method not in UTC_METHODS:\n        raise ValueError(f'Unknown UTC timing method \"{method}\"')\n    return method\n",
+        "    if method is None:\n        return None\n    if method.lower() not in UTC_METHODS:\n        raise ValueError(f'Unknown UTC timing method \"{method}\"')\n    return method.lower()\n")],
+      None),
+]
+
+SPLT = 'dashlive/scte35/splice_time.py'
+VARIANTS['C14'] += [
+    V('pts written under a mask one bit narrower than its field',
+      [(SPLT, "            w.write(33, 'pts')\n", "            w.write(33, 'pts', value=self.pts & 0xFFFFFFFF)\n")],
+      'R14.1', 'SpliceTime'),
+    V('neutral: pts written under a mask as wide as its field',
+      [(SPLT, "            w.write(33, 'pts')\n", "            w.write(33, 'pts', value=self.pts & 0x1FFFFFFFF)\n")],
+      None),
+]
+
+VARIANTS['C04'] += [
+    V('mfhd sequence number written under a 16-bit mask into its 32-bit field',
+      [(MP4, "        w.write('I', 'sequence_number')\n", "        w.write('I', 'sequence_number', value=self.sequence_number & 0xFFFF)\n")],
+      'R04.1', 'MovieFragmentHeaderBox'),
+    V('neutral: mfhd sequence number written under a 32-bit mask',
+      [(MP4, "        w.write('I', 'sequence_number')\n", "        w.write('I', 'sequence_number', value=self.sequence_number & 0xFFFFFFFF)\n")],
+      None),
+]
+
+MFILE = 'dashlive/server/models/mediafile.py'
+for _p, _r in (('C13', 'R13.6'), ('C17', 'R17.11')):
+    VARIANTS[_p] += [
+        V('size of the rewritten media file taken while the writing handle is open',
+          [(MFILE, "                            dest.write(src.read(frag.size))\n        except Exception as err:\n",
+            "                            dest.write(src.read(frag.size))\n                    stats = new_filename.stat()\n        except Exception as err:\n"),
+           (MFILE, "        stats = new_filename.stat()\n        old_blob = self.blob\n", "        old_blob = self.blob\n")],
+          _r, 'modify_media_file'),
+        V('neutral: size of the rewritten media file taken right after the with block, inside the try',
+          [(MFILE, "                            dest.write(src.read(frag.size))\n        except Exception as err:\n",
+            "                            dest.write(src.read(frag.size))\n            stats = new_filename.stat()\n        except Exception as err:\n"),
+           (MFILE, "        stats = new_filename.stat()\n        old_blob = self.blob\n", "        old_blob = self.blob\n")],
+          None),
+    ]
+
+KEYM = 'dashlive/server/models/key.py'
+VARIANTS['C17'] += [
+    V('key/media-file link rows left to the database although SQLite enforces no foreign keys',
+      [(KEYM, "        secondary=mediafile_keys, back_populates='encryption_keys')\n",
+        "        secondary=mediafile_keys, back_populates='encryption_keys',\n        passive_deletes=True)\n")],
+      'R17.1', 'mediafile_keys'),
+    V('neutral: key/media-file relationship spells out passive_deletes=False',
+      [(KEYM, "        secondary=mediafile_keys, back_populates='encryption_keys')\n",
+        "        secondary=mediafile_keys, back_populates='encryption_keys',\n        passive_deletes=False)\n")],
+      None),
+]
